@@ -24,6 +24,10 @@ var suites = map[string]suite{}
 // runner executes one op line on the implementation; prefix-dispatched.
 var runners = map[string]func(st *state, args []string) string{}
 
+// resetHooks release what a sequence's implementation state holds outside the process heap (storage
+// engines, temp directories); run on every "reset" and at the end of input.
+var resetHooks []func(st *state)
+
 // state holds per-sequence implementation state ("reset" op clears it).
 type state struct {
 	m map[string]any
@@ -85,6 +89,9 @@ func main() {
 				if w := wpOf(st); w != nil {
 					w.close()
 				}
+				for _, h := range resetHooks {
+					h(st)
+				}
 				runtime.GOMAXPROCS(runtime.NumCPU())
 				st = newState()
 				fmt.Fprintf(w, "%s\t-\n", line)
@@ -96,6 +103,9 @@ func main() {
 				continue
 			}
 			fmt.Fprintf(w, "%s\t%s\n", line, safeRun(rn, st, f[1:]))
+		}
+		for _, h := range resetHooks {
+			h(st)
 		}
 	default:
 		os.Exit(2)
